@@ -22,7 +22,8 @@ def gen_case(rng):
     Lmax = 3 if kind == 'fermi_hubbard' else 4 if kind == 'bose' else 6
     return dict(alg=alg, kind=kind, L=int(rng.integers(2, Lmax + 1)), nsweeps=int(rng.integers(1, 4)), numiter=int(rng.choice([2, 3, 5, 25])),
                 maxD=int(rng.integers(1, 5)), qnums=bool(rng.random() < 0.7), complete=bool(rng.random() < 0.25), real=bool(rng.random() < 0.2),
-                repeat=bool(rng.random() < 0.3), shift=bool(rng.random() < 0.3), basis=bool(rng.random() < 0.35), seed=int(rng.integers(1 << 30)))
+                repeat=bool(rng.random() < 0.3), shift=bool(rng.random() < 0.3), basis=bool(rng.random() < 0.35), seed=int(rng.integers(1 << 30)),
+                tol_split=float(rng.choice([0.0, 0.0, 0.0, 1e-3, 1e-2])), product=bool(rng.random() < 0.5))
 
 
 def record(c):
@@ -46,9 +47,13 @@ def record(c):
         bs = False
         if c['complete'] and c.get('basis'):
             bs = sweepgen.basis_state_on(ptn, rng, psi)  # sparse start tensors: a computational basis state of the sector
-        nsw = 3 if c['complete'] else c['nsweeps']
+        prod = False
+        if c['complete'] and not bs and c.get('product') and not c['qnums']:
+            prod = sweepgen.product_state_on(ptn, rng, psi)     # a generic product state zero-padded into the complete manifold
+        nsw = (6 if prod else 3) if c['complete'] else c['nsweeps']
         nit = 25 if c['complete'] else c['numiter']
-        tr = sweepgen.record_dmrg(ptn, H, psi, c['alg'], nsw, nit, complete=c['complete'], basis_start=bs)
+        ts = float(c.get('tol_split', 0.0)) if (c['alg'] == 'dmrg2' and not c['complete']) else 0.0
+        tr = sweepgen.record_dmrg(ptn, H, psi, c['alg'], nsw, nit, tol_split=ts, complete=c['complete'], basis_start=bs)
         if c['repeat'] and tr[-1].get('ev') == 'end':
             # a history: the user changes the state or the Hamiltonian between two invocations on the same objects
             how = str(rng.choice(['none', 'scale_psi', 'quench_H', 'ortho_left']))
